@@ -299,3 +299,97 @@ Proof.
   - intros e [<-|[]]. vm_compute. tauto.
   - rewrite Z. left. reflexivity.
 Qed.
+
+(* ================================================================================================================= *)
+(* why at most one selected sequence passes a given arc when its condensation arc has multiplicity >= 2: an arc that has a parallel
+   arc between the same two components dominates nothing, so it lies on no dominator chain but its own *)
+From FP Require DomSpec.
+Lemma nodes_chain : forall m a, SafetyReach.chain a (EulerProofs1.pairs (a :: m)) (last (a :: m) a).
+Proof.
+  induction m as [|b m IH]; intros a; [constructor|]. rewrite pairs_cons2. constructor.
+  replace (last (a :: b :: m) a) with (last (b :: m) b) by (rewrite !last_cons_default; reflexivity). apply IH.
+Qed.
+Lemma first_occurrence (e : edge) : forall w, In e w -> exists w1 w2, w = w1 ++ e :: w2 /\ ~ In e w1.
+Proof.
+  induction w as [|x w IH]; intros H; [destruct H|]. destruct (DomSpec.edge_dec x e) as [->|Hne].
+  - exists [], w. split; [reflexivity|intros []].
+  - destruct H as [H|H]; [contradiction|]. destruct (IH H) as (w1 & w2 & -> & Hn). exists (x :: w1), w2. split; [reflexivity|].
+    intros [E0|H0]; [contradiction|exact (Hn H0)].
+Qed.
+Lemma last_occurrence (e : edge) w : In e w -> exists w1 w2, w = w1 ++ e :: w2 /\ ~ In e w2.
+Proof.
+  intros H. apply in_rev in H. destruct (first_occurrence e (rev w) H) as (r1 & r2 & E0 & Hn).
+  exists (rev r2), (rev r1). split.
+  - rewrite <- (rev_involutive w), E0, rev_app_distr. cbn [rev]. rewrite <- app_assoc. reflexivity.
+  - intros Hin. apply in_rev in Hin. exact (Hn Hin).
+Qed.
+
+Section Parallel.
+  Variable E : list PathEnc.edge.
+  Variable cm : node -> N.
+  Hypothesis Hcm : forall u v, In u (nodes_of E) -> In v (nodes_of E) -> (cm u = cm v <-> conn E u v /\ conn E v u).
+
+  (* a walk between two nodes of one component stays inside the component *)
+  Lemma walk_inside_component : forall m x, In x (nodes_of E) -> incl (EulerProofs1.pairs (x :: m)) E -> cm (last (x :: m) x) = cm x ->
+    forall p q, In (p, q) (EulerProofs1.pairs (x :: m)) -> cm p = cm x /\ cm q = cm x.
+  Proof.
+    intros m x Hx Hw Hc p q Hpq.
+    assert (Hy : conn E x (last (x :: m) x)) by (exists m; split; [exact Hw|reflexivity]).
+    assert (HpqE : In (p, q) E) by (apply Hw; exact Hpq).
+    destruct (nodes_of_in E (p, q) HpqE) as [Np Nq]. cbn [fst snd] in Np, Nq.
+    assert (Nl : In (last (x :: m) x) (nodes_of E)).
+    { destruct m as [|y m']; [exact Hx|]. destruct (WalkWidth.proj_head E cm x (y :: m')) as (q0 & _).
+      destruct (exists_last (l := x :: y :: m') ltac:(discriminate)) as (l0 & z & E0). rewrite E0, last_last.
+      (* the last node is the head of the last pair *)
+      assert (Hz : exists a, In (a, z) (EulerProofs1.pairs (x :: y :: m'))).
+      { rewrite E0. destruct l0 as [|c l1]; [discriminate|]. exists (last (c :: l1) c).
+        rewrite (pairs_app_last (c :: l1) [z] c) by discriminate. apply in_or_app. right. left. reflexivity. }
+      destruct Hz as (a & Ha). exact (proj2 (nodes_of_in E (a, z) (Hw _ Ha))). }
+    destruct (proj1 (Hcm x _ Hx Nl) (eq_sym Hc)) as [_ Hback].
+    (* x reaches p, q reaches the end, the end reaches x *)
+    pose proof (in_pairs_conn E m x (p, q) Hw Hpq) as Hxp. cbn [fst] in Hxp.
+    assert (Hq_end : conn E q (last (x :: m) x)).
+    { clear - Hw Hpq. revert x Hw Hpq. induction m as [|y m IH]; intros x Hw Hpq; [destruct Hpq|]. rewrite pairs_cons2 in Hw, Hpq.
+      replace (last (x :: y :: m) x) with (last (y :: m) y) by (rewrite !last_cons_default; reflexivity). destruct Hpq as [Hpq|Hpq].
+      - injection Hpq as <- <-. exists m. split; [intros e He; apply Hw; right; exact He|reflexivity].
+      - apply IH; [intros e He; apply Hw; right; exact He|exact Hpq]. }
+    assert (Hqx : conn E q x) by (apply (conn_trans E q _ x Hq_end Hback)).
+    assert (Hpx : conn E p x) by (apply (conn_trans E p q x); [apply conn_edge; exact HpqE|exact Hqx]).
+    assert (Hxq : conn E x q) by (apply (conn_trans E x p q Hxp); apply conn_edge; exact HpqE).
+    split; [apply (Hcm p x Np Hx); split; assumption|apply (Hcm q x Nq Hx); split; assumption].
+  Qed.
+
+  Theorem parallel_arc_dominates_nothing e e' v t :
+    In e E -> In e' E -> e <> e' -> cm (fst e) = cm (fst e') -> cm (snd e) = cm (snd e') -> cm (fst e) <> cm (snd e) ->
+    (exists w, st_walk E v t w) -> ~ DomSpec.dominates_to E v t e.
+  Proof.
+    intros He He' Hne E1 E2 Hinter (w & [C I]) Hdom. pose proof (Hdom w (conj C I)) as Hin.
+    destruct (first_occurrence e w Hin) as (w1 & r & Ew & Hn1).
+    rewrite Ew in C, I. destruct (chain_app_inv _ _ _ _ C) as (m1 & C1 & Cr). destruct (chain_cons_inv' _ _ _ _ Cr) as [Em1 Crr].
+    assert (Htail : exists w2, SafetyReach.chain (snd e) w2 t /\ incl w2 r /\ ~ In e w2).
+    { destruct (in_dec DomSpec.edge_dec e r) as [Hr|Hr]; [|exists r; split; [exact Crr|split; [intros x Hx; exact Hx|exact Hr]]].
+      destruct (last_occurrence e r Hr) as (r1 & w2 & Er & Hn2). rewrite Er in Crr. destruct (chain_app_inv _ _ _ _ Crr) as (m2 & _ & C2).
+      destruct (chain_cons_inv' _ _ _ _ C2) as [_ C2']. exists w2. split; [exact C2'|]. split; [|exact Hn2].
+      intros x Hx. rewrite Er. apply in_or_app. right. right. exact Hx. }
+    destruct Htail as (w2 & C2' & Iw2 & Hn2).
+    destruct e as [a1 b1], e' as [a2 b2]. cbn [fst snd] in *. subst m1.
+    destruct (nodes_of_in E (a1, b1) He) as [Na1 Nb1]. destruct (nodes_of_in E (a2, b2) He') as [Na2 Nb2]. cbn [fst snd] in *.
+    destruct (proj1 (Hcm a1 a2 Na1 Na2) E1) as [(ma & Hma & Lma) _]. destruct (proj1 (Hcm b2 b1 Nb2 Nb1) (eq_sym E2)) as [(mb & Hmb & Lmb) _].
+    set (W := w1 ++ EulerProofs1.pairs (a1 :: ma) ++ (a2, b2) :: EulerProofs1.pairs (b2 :: mb) ++ w2).
+    assert (HW : st_walk E v t W).
+    { split.
+      - unfold W. apply (chain_app v w1 a1 _ t C1). apply (chain_app a1 _ a2).
+        + pose proof (nodes_chain ma a1) as Hc. rewrite Lma in Hc. exact Hc.
+        + constructor. apply (chain_app b2 _ b1 _ t); [|exact C2']. pose proof (nodes_chain mb b2) as Hc. rewrite Lmb in Hc. exact Hc.
+      - unfold W. intros x Hx. apply in_app_or in Hx. destruct Hx as [Hx|Hx]; [apply I; apply in_or_app; left; exact Hx|].
+        apply in_app_or in Hx. destruct Hx as [Hx|[<-|Hx]]; [apply Hma; exact Hx|exact He'|].
+        apply in_app_or in Hx. destruct Hx as [Hx|Hx]; [apply Hmb; exact Hx|].
+        apply I. apply in_or_app. right. right. apply Iw2. exact Hx. }
+    pose proof (Hdom W HW) as HinW. unfold W in HinW. apply in_app_or in HinW. destruct HinW as [H|H]; [exact (Hn1 H)|].
+    apply in_app_or in H. destruct H as [H|[H|H]].
+    - destruct (walk_inside_component ma a1 Na1 Hma ltac:(rewrite Lma; symmetry; exact E1) a1 b1 H) as [_ Hb]. exact (Hinter (eq_sym Hb)).
+    - exact (Hne (eq_sym H)).
+    - apply in_app_or in H. destruct H as [H|H]; [|exact (Hn2 H)].
+      destruct (walk_inside_component mb b2 Nb2 Hmb ltac:(rewrite Lmb; exact E2) a1 b1 H) as [Ha _]. apply Hinter. rewrite Ha. symmetry. exact E2.
+  Qed.
+End Parallel.
